@@ -257,6 +257,9 @@ fn failing_cases() -> Vec<Case> {
     for it in [
         format!("{foreign} impl ::core::ops::Add for X {{ type Output = X; #[inline] fn add(self, rhs: X) -> X {{ #[allow(unused)] let y = rhs; self }} }}"),
         format!("{foreign} impl<T: Clone> ::core::ops::Sub<&Y<T>> for &X<T> where T: Default {{ #[doc = \"o\"] type Output = X<T>; fn sub(self, _rhs: &Y<T>) -> X<T> {{ todo!() }} }}"),
+        // anonymous lifetimes in the header stay as written in the re-emitted impl (only the derived impls name them)
+        format!("{foreign} impl ::core::ops::Add<u32> for W<'_> {{ type Output = u32; fn add(self, rhs: u32) -> u32 {{ rhs }} }}"),
+        format!("{foreign} impl ::core::ops::Add<&W<'_>> for G<&u8> {{ type Output = u32; fn add(self, _rhs: &W<'_>) -> u32 {{ 0 }} }}"),
     ] {
         let a = if it.contains("Add") { "Add, AddAssign" } else { "Sub" };
         v.push(Case { vector: vec![], attr: a.into(), input: it.clone(), expected: it, kind: "impl-item" });
@@ -430,7 +433,7 @@ fn survivors() -> Vec<crate::xrun::XCase> {
 /// same macro-generated definition has without derive_ex (worked out by hand, `$e = 1 + 2`).
 fn fragment_survivors() -> Vec<crate::xrun::XCase> {
     // (context with the fragment `$e = 1 + 2`, its value)
-    let ctxs: [(&str, i64); 10] = [("$e * 2", 6), ("2 * $e", 6), ("$e - $e", 0), ("($e) * 2", 6), ("$e as TY * 2", 6), ("[$e * 2, 1][0]", 6), ("$f.pow(2)", 9), ("<TY>::pow($e, 2)", 9), ("4 - $e", 1), ("8 / $e", 2)];
+    let ctxs: [(&str, i64); 12] = [("$c as TY", 3), ("$g.pow(2)", 9), ("$e * 2", 6), ("2 * $e", 6), ("$e - $e", 0), ("($e) * 2", 6), ("$e as TY * 2", 6), ("[$e * 2, 1][0]", 6), ("$f.pow(2)", 9), ("<TY>::pow($e, 2)", 9), ("4 - $e", 1), ("8 / $e", 2)];
     let mut out = Vec::new();
     let mut push = |what: String, defs: String, expr: String, expected: String| {
         out.push(crate::xrun::XCase {
@@ -450,10 +453,18 @@ fn fragment_survivors() -> Vec<crate::xrun::XCase> {
         for (ctx, val) in ctxs.iter() {
             let u = ctx.replace("TY", "usize");
             let i = ctx.replace("TY", "isize");
-            push(format!("{entry}: array length `{u}`"), format!("pub mod m {{ use derive_ex::{{derive_ex, Ex}}; macro_rules! mk {{ ($n:ident, $e:expr, $f:expr) => {{ {head} pub struct $n(pub [u8; {u}]); }} }} mk!(X, 1 + 2, 1 as usize + 2); }}"), "format!(\"{}\", ::core::mem::size_of::<m::X>())".into(), format!("{val}"));
-            push(format!("{entry}: array length `{u}` of a parameter type"), format!("pub mod m {{ use derive_ex::{{derive_ex, Ex}}; macro_rules! mk {{ ($n:ident, $e:expr, $f:expr) => {{ {head} pub struct $n<T>(pub [T; {u}]); }} }} mk!(X, 1 + 2, 1 as usize + 2); }}"), format!("{{ let x = m::X([7u8; {val}]); let y = ::core::clone::Clone::clone(&x); format!(\"{{}}\", y.0.len()) }}"), format!("{val}"));
-            push(format!("{entry}: discriminant `{i}`"), format!("pub mod m {{ use derive_ex::{{derive_ex, Ex}}; macro_rules! mk {{ ($n:ident, $e:expr, $f:expr) => {{ {head} pub enum $n {{ P = {i}, Q }} }} }} mk!(X, 1 + 2, 1 as isize + 2); }}"), "format!(\"{};{}\", m::X::P as isize, m::X::Q as isize)".into(), format!("{};{}", val, val + 1));
-            push(format!("{entry}: const argument `{{ {u} }}`"), format!("pub mod m {{ use derive_ex::{{derive_ex, Ex}}; #[derive(Clone)] pub struct Arr<const N: usize>(pub [u8; N]); macro_rules! mk {{ ($n:ident, $e:expr, $f:expr) => {{ {head} pub struct $n(pub Arr<{{ {u} }}>); }} }} mk!(X, 1 + 2, 1 as usize + 2); }}"), "format!(\"{}\", ::core::mem::size_of::<m::X>())".into(), format!("{val}"));
+            if ctx.contains("$g") {
+                // a negative operand: discriminants only
+                push(format!("{entry}: discriminant `{i}`"), format!("pub mod m {{ use derive_ex::{{derive_ex, Ex}}; macro_rules! mk {{ ($n:ident, $e:expr, $f:expr, $c:expr, $g:expr) => {{ {head} pub enum $n {{ P = {i}, Q }} }} }} mk!(X, 1 + 2, 1 as isize + 2, 1u8 + 2u8, -3isize); }}"), "format!(\"{};{}\", m::X::P as isize, m::X::Q as isize)".into(), format!("{};{}", val, val + 1));
+                continue;
+            }
+            push(format!("{entry}: array length `{u}`"), format!("pub mod m {{ use derive_ex::{{derive_ex, Ex}}; macro_rules! mk {{ ($n:ident, $e:expr, $f:expr, $c:expr, $g:expr) => {{ {head} pub struct $n(pub [u8; {u}]); }} }} mk!(X, 1 + 2, 1 as usize + 2, 1u8 + 2u8, -3isize); }}"), "format!(\"{}\", ::core::mem::size_of::<m::X>())".into(), format!("{val}"));
+            push(format!("{entry}: array length `{u}` of a parameter type"), format!("pub mod m {{ use derive_ex::{{derive_ex, Ex}}; macro_rules! mk {{ ($n:ident, $e:expr, $f:expr, $c:expr, $g:expr) => {{ {head} pub struct $n<T>(pub [T; {u}]); }} }} mk!(X, 1 + 2, 1 as usize + 2, 1u8 + 2u8, -3isize); }}"), format!("{{ let x = m::X([7u8; {val}]); let y = ::core::clone::Clone::clone(&x); format!(\"{{}}\", y.0.len()) }}"), format!("{val}"));
+            push(format!("{entry}: discriminant `{i}`"), format!("pub mod m {{ use derive_ex::{{derive_ex, Ex}}; macro_rules! mk {{ ($n:ident, $e:expr, $f:expr, $c:expr, $g:expr) => {{ {head} pub enum $n {{ P = {i}, Q }} }} }} mk!(X, 1 + 2, 1 as isize + 2, 1u8 + 2u8, -3isize); }}"), "format!(\"{};{}\", m::X::P as isize, m::X::Q as isize)".into(), format!("{};{}", val, val + 1));
+            push(format!("{entry}: const argument `{{ {u} }}`"), format!("pub mod m {{ use derive_ex::{{derive_ex, Ex}}; #[derive(Clone)] pub struct Arr<const N: usize>(pub [u8; N]); macro_rules! mk {{ ($n:ident, $e:expr, $f:expr, $c:expr, $g:expr) => {{ {head} pub struct $n(pub Arr<{{ {u} }}>); }} }} mk!(X, 1 + 2, 1 as usize + 2, 1u8 + 2u8, -3isize); }}"), "format!(\"{}\", ::core::mem::size_of::<m::X>())".into(), format!("{val}"));
+        }
+        for (ty, what) in [("&'a $t", "reference (one trait and a lifetime bound)"), ("*const $t", "raw pointer (one trait and a lifetime bound)")] {
+            push(format!("{entry}: `ty` fragment `dyn Tr + 'static` behind a {what}"), format!("pub mod m {{ use derive_ex::{{derive_ex, Ex}}; pub trait Tr {{}} macro_rules! mk {{ ($n:ident, $t:ty) => {{ {head} pub struct $n<'a>(pub {ty}, pub ::core::marker::PhantomData<&'a u8>); }} }} mk!(X, dyn Tr + 'static); }}"), "format!(\"{}\", dxrt::impls!(m::X<'static>: ::core::clone::Clone))".into(), "true".into());
         }
         for (ty, what) in [("&'a $t", "reference"), ("*const $t", "raw pointer"), ("::core::option::Option<&'a $t>", "nested reference")] {
             push(format!("{entry}: `ty` fragment `dyn Tr + Send` behind a {what}"), format!("pub mod m {{ use derive_ex::{{derive_ex, Ex}}; pub trait Tr {{}} macro_rules! mk {{ ($n:ident, $t:ty) => {{ {head} pub struct $n<'a>(pub {ty}, pub ::core::marker::PhantomData<&'a u8>); }} }} mk!(X, dyn Tr + Send); }}"), "format!(\"{}\", dxrt::impls!(m::X<'static>: ::core::clone::Clone))".into(), "true".into());
@@ -461,8 +472,8 @@ fn fragment_survivors() -> Vec<crate::xrun::XCase> {
     }
     // the body of a user impl is part of the re-emitted item
     for (ctx, val) in ctxs.iter() {
-        let u = ctx.replace("TY", "usize");
-        push(format!("impl item: method body `{u}`"), format!("pub mod m {{ use derive_ex::derive_ex; #[derive(Clone)] pub struct X(pub usize); macro_rules! mk {{ ($e:expr, $f:expr) => {{ #[derive_ex(AddAssign)] impl ::core::ops::Add<usize> for X {{ type Output = X; fn add(self, r: usize) -> X {{ let k: usize = {u}; X(self.0 + r + k) }} }} }} }} mk!(1 + 2, 1 as usize + 2); }}"), "{ let mut x = m::X(10); x += 100; format!(\"{};{}\", (m::X(10) + 100).0, x.0) }".into(), format!("{};{}", 110 + val, 110 + val));
+        let u = if ctx.contains("$g") { format!("({}) as usize", ctx.replace("TY", "isize")) } else { ctx.replace("TY", "usize") };
+        push(format!("impl item: method body `{u}`"), format!("pub mod m {{ use derive_ex::derive_ex; #[derive(Clone)] pub struct X(pub usize); macro_rules! mk {{ ($e:expr, $f:expr, $c:expr, $g:expr) => {{ #[derive_ex(AddAssign)] impl ::core::ops::Add<usize> for X {{ type Output = X; fn add(self, r: usize) -> X {{ let k: usize = {u}; X(self.0 + r + k) }} }} }} }} mk!(1 + 2, 1 as usize + 2, 1u8 + 2u8, -3isize); }}"), "{ let mut x = m::X(10); x += 100; format!(\"{};{}\", (m::X(10) + 100).0, x.0) }".into(), format!("{};{}", 110 + val, 110 + val));
     }
     // fragments of the remaining kinds (vis incl. the empty one, lifetime, path, literal, block; pat / stmt / block / ty in
     // the method body of an impl item): flattening them is harmless, they must simply survive
